@@ -635,6 +635,12 @@ where
     ) -> AllocResult<(u32, &mut Slot<N>)> {
         let mut shared = self.state.lock();
 
+        // If there is neither a free nor an uninitialized slot, no node will
+        // be created: do not count it
+        let out_of_memory = shared.next_free.is_empty()
+            && shared.allocated as usize >= self.inner_nodes.slots.len();
+        let delta = if out_of_memory { delta - 1 } else { delta };
+
         shared.node_count += delta as i64;
         if shared.gc_state == GCState::Init && shared.node_count >= shared.gc_hwm as i64 {
             shared.gc_state = GCState::Triggered;
